@@ -39,7 +39,12 @@ def gen_case(rng):
         name = gen_name(rng, used)
         used.add(name)
         size = rng.choice([0, 1, 5, 0x1FF, 0x200, 0x201, 0x400, rng.randrange(0, 0x500)])
-        files.append([name, pyenv.rbytes(rng, size).hex()])
+        data = pyenv.rbytes(rng, size)
+        if name == 'icon' and rng.random() < 0.6:
+            # an entry is just bytes, whatever its name: something that looks like an SMDH (magic, full size) with arbitrary contents,
+            # or a cut one, is a well-formed ExeFS entry all the same
+            data = b'SMDH' + pyenv.rbytes(rng, rng.choice([0x36C0 - 4, 0x36C0 - 4, 0x36C0 - 5, 0x1FC, 0]))
+        files.append([name, data.hex()])
     start = rng.choice([0, 0, 7, 0x200])
     mal = None
     r = rng.random()
